@@ -194,6 +194,83 @@ def _header_values_preserved(ck, I, sp0):
               "unchanged", True, vel, "results_table.init", f"{len(leaves_)} leaf/leaves of the filter")
 
 
+def _flattener_on_shapes(ck, ctx, sch, fd, args):
+    """evaluate flatten_dict on the concrete nesting of every configuration shape; True / False / None (the
+    evaluation did not produce a dictionary with known keys)"""
+    pre_s, sep_s, comp_pre, comp_suf = args
+    leaves_all = sch.leaf_paths()
+    unions = {}
+    for path, fld, conds in leaves_all:
+        for up, model in conds:
+            unions.setdefault(up, [])
+            if model not in unions[up]:
+                unions[up].append(model)
+    # one shape per variant of every union, the other unions at their first variant
+    base = {up: ms[0] for up, ms in unions.items()}
+    shapes = [dict(base)]
+    for up, ms in unions.items():
+        for mdl in ms[1:]:
+            sh = dict(base)
+            sh[up] = mdl
+            shapes.append(sh)
+    verdict = True
+    n_ok = 0
+    for sh in shapes:
+        J = ctx.interp()
+        J.recursion_limit = 16
+        J.collect_all_generators = True
+        gj = J.g
+        chosen = [(p_, f_) for p_, f_, conds in leaves_all if all(sh.get(up) == mdl for up, mdl in conds)]
+        leaf_nodes = {p_: J.input("cfg." + ".".join(p_), kind="float") for p_, _f in chosen}
+
+        def build(prefix):
+            keys, vals, seen = [], [], []
+            for p_, _f in chosen:
+                if p_[:len(prefix)] != prefix or len(p_) <= len(prefix):
+                    continue
+                k_ = p_[len(prefix)]
+                if k_ in seen:
+                    continue
+                seen.append(k_)
+                keys.append(("k", k_))
+                vals.append(leaf_nodes[p_] if len(p_) == len(prefix) + 1 else build(prefix + (k_,)))
+            return J.mk("Dict", vals, tuple(keys))
+        d_ = build(())
+        fdn = next(f_ for f_ in J.module("nuspacesim.utils.misc").functions.values() if f_.name == "flatten_dict")
+        try:
+            rr = J.run(J.func_node(fdn), [d_, J.const(pre_s), J.const(sep_s)])
+            out = J.snapshot(rr.value, rr.st) if rr.value is not None else None
+        except Exception:       # noqa: BLE001
+            out = None
+        label = ", ".join(f"{'.'.join(up)}={mdl.split('.')[-1]}" for up, mdl in sorted(sh.items()))
+        if out is None or out.op != "Dict" or not all(kd[0] == "k" for kd in out.attr):
+            return None
+        got = {comp_pre + kd[1] + comp_suf: v_ for kd, v_ in J.dict_items(out)} if all(
+            isinstance(kd[1], str) for kd in out.attr) else None
+        if got is None:
+            return None
+        want = {PREFIX_W + " " + " ".join(p_): leaf_nodes[p_] for p_, _f in chosen}
+        missing = sorted(set(want) - set(got))
+        extra = sorted(set(got) - set(want))
+        wrong = sorted(k_ for k_ in set(want) & set(got) if got[k_] is not want[k_])
+        ok_ = not missing and not extra and not wrong
+        n_ok += ok_
+        if not ok_:
+            verdict = False
+            ck.ob("R16.1", f"flattener on the configuration shape [{label}]: one header entry per field, under "
+                  f"'{PREFIX_W} ' + the field's path joined by single spaces, holding that field's value", False,
+                  (fd.module.relpath, fd.node.lineno, 0), "flatten_dict",
+                  (f"missing {missing[:3]} " if missing else "") + (f"unexpected {extra[:3]} " if extra else "") +
+                  (f"wrong value under {wrong[:3]}" if wrong else ""),
+                  construct="flatten_dict: flattened keys / values of a configuration shape")
+    if verdict:
+        ck.ob("R16.1", "the flattener, evaluated on every configuration shape (nesting and field names of the schema, one "
+              "run per union variant): exactly one entry per field, keyed by its joined path, holding its value", True,
+              (fd.module.relpath, fd.node.lineno, 0), "flatten_dict", f"{n_ok} shape(s), "
+              f"{len(leaves_all)} leaf path(s)")
+    return verdict
+
+
 def run(ck, ctx):
     ck.explanation = EXPLANATION
     I = ctx.interp()
@@ -213,14 +290,28 @@ def run(ck, ctx):
         from .common import COMPUTE_MOD
         fi = I.function("nuspacesim.results_table", "init")
         cfg = I.cfg_root()
+        I.watch_calls.add("flatten_dict")
+        log0 = len(I.call_log)
         r = I.run(I.func_node(fi), [cfg])
         if r.value is None:
             raise AnalysisError("results_table.init has no normal exit")
+        flat_calls = [c for c in I.call_log[log0:] if c[0].qualname == "flatten_dict"]
+        flat_args = {}      # id of the flattener's result -> its arguments (d, parent_key, sep) as passed
+        for fc in flat_calls:
+            ent = getattr(fc[2], "entry", fc[2])
+            ps = [a.arg for a in fc[0].node.args.args]
+            vals_ = [ent.get(p_) for p_ in ps[:3]]
+            for node_ in (fc[3], I.snapshot(fc[3], r.st), I.res(fc[3], r.st)):
+                if node_ is not None:
+                    flat_args[node_.id] = vals_
         tabs = [n for n in walk([r.value]) if is_ext_call(n, "astropy.table.Table")]
         ok = False
         detail = f"{len(tabs)} Table construction(s)"
+        shape_args = []
 
         def is_flat_call(n):
+            if n.id in flat_args:
+                return True
             return n.op == "Call" and n.args and n.args[0].op == "Func" and \
                 n.args[0].attr.qualname in ("flatten_dict", "_flat")
 
@@ -296,10 +387,14 @@ def run(ck, ctx):
                         _header_values_preserved(ck, I, comp)
                 if flat is None:
                     continue
-                p2, k2 = call_args(flat)
-                dump = p2[0] if p2 else None
-                pre = p2[1] if len(p2) > 1 else k2.get("parent_key")
-                sep = k2.get("sep") or (p2[2] if len(p2) > 2 else None)
+                if flat.id in flat_args:
+                    dump, pre, sep = flat_args[flat.id]
+                    dump = I.res(dump, r.st) if dump is not None else None
+                else:
+                    p2, k2 = call_args(flat)
+                    dump = p2[0] if p2 else None
+                    pre = p2[1] if len(p2) > 1 else k2.get("parent_key")
+                    sep = k2.get("sep") or (p2[2] if len(p2) > 2 else None)
                 ok_dump = dump is not None and dump.op == "MCall" and dump.attr[0] == "model_dump" and \
                     len(dump.args) == 1 and dump.args[0].op == "Cfg" and dump.args[0].attr == ()
                 ck.ob("R16.1", "the header is built from the whole model_dump() of the configuration "
@@ -312,13 +407,21 @@ def run(ck, ctx):
                 ck.ob("R16.1", "path components are joined with a single space", sep_s == " ", flat,
                       "results_table.init", g.show(sep, 1) if sep is not None else "default '.'")
                 ok = True
+                if pre_s is not None and sep_s is not None:
+                    shape_args.append((pre_s, sep_s, comp_pre, comp_suf))
         ck.ob("R16.1", "results_table.init puts the flattened configuration into the table's meta", ok, r.value,
               "results_table.init", detail)
-        # behaviour of the flattener, from the effects of its generator body
         m = I.module("nuspacesim.utils.misc")
         fd = m.functions.get("flatten_dict")
         if fd is None:
             raise AnalysisError("flatten_dict not found in utils/misc.py")
+        # behaviour of the flattener, whatever its algorithm: it is evaluated on every SHAPE a configuration dump can
+        # have (the nested sections and field names of the schema, one run per variant of every union field; the
+        # values stay symbolic).  The flat dictionary must hold exactly one entry per field, under the joined path.
+        shape_verdict = None
+        if shape_args:
+            shape_verdict = _flattener_on_shapes(ck, ctx, sch, fd, shape_args[0])
+        # behaviour of the flattener, from the effects of its generator body
         d, pk, sep = I.input("d"), I.input("parent_key"), I.input("sep")
         rfd = I.run(I.func_node(fd), [d, pk, sep])
         v = rfd.value
@@ -336,6 +439,8 @@ def run(ck, ctx):
         ck.ob("R16.1", "the flattener writes to no object that outlives the call", not wg, v if v is not None else d,
               "flatten_dict", f"{len(wg)} such write(s)")
         ok_fd = fl is not None and [x for x in gen.args[1:]] == [d, pk, sep]
+        if shape_verdict is not None and not ok_fd:
+            return          # decided on the configuration shapes; the generator reading does not apply to this algorithm
         ck.ob("R16.1", "flatten_dict collects all items emitted by the flattening generator for (d, parent_key, sep)",
               ok_fd if ok_fd else None, v if v is not None else d, "flatten_dict",
               g.show(v, 3) if v is not None else "no value")
